@@ -966,10 +966,20 @@ class Interp:
                     fs = ast.unparse(v.format_spec)
                     if fs not in ("f's'", "f'd'", "'s'", "'d'"):
                         raise Unsupported('format spec %s' % fs)
-                val = self.eval(v.value)
-                if v.conversion == ord('r'):
-                    raise Unsupported('!r conversion')
-                parts.append(lib.to_str(self, val).t)
+                if v.conversion in (ord('r'), ord('a')):
+                    # repr()/ascii() of an arbitrary object: some string (its content never matters to the contracts; if the
+                    # operand cannot even be evaluated - e.g. an attribute chain only used in a message - it is not evaluated)
+                    try:
+                        self.eval(v.value)
+                    except Unsupported:
+                        pass
+                    parts.append(core.fresh('repr', z3.StringSort()))
+                    continue
+                try:
+                    val = self.eval(v.value)
+                    parts.append(lib.to_str(self, val).t)
+                except Unsupported:
+                    parts.append(core.fresh('formatted', z3.StringSort()))
         if not parts:
             return VStr('')
         return VStr(z3.Concat(*parts) if len(parts) > 1 else parts[0])
